@@ -1,14 +1,14 @@
 # C13 — validator, encoder and database agree; names round-trip
 import json, os
 X86_UNITS = ['asmjit/x86/x86assembler.cpp', 'asmjit/x86/x86instdb.cpp', 'asmjit/x86/x86instapi.cpp']
-UNITS = [Unit('forms13', harness=['h_forms13.cpp'], repo_units=X86_UNITS)]
+UNITS = [Unit('forms13', prescreen=True, harness=['h_forms13.cpp'], repo_units=X86_UNITS)]
 _c01 = os.path.join(os.path.dirname(os.path.abspath(__file__)), '..', 'C01')
 _fg = json.load(open(os.path.join(_c01, 'forms_gen.json')))
 _st = json.load(open(os.path.join(_c01, 'forms_status.json')))
 # "implemented" = accepted by the pinned release (vendored list checks/C01/forms_status.json); a form that stops being accepted
 # makes the both-accept witness unreachable, which the runner reports (vacuous harness = broken check, to be triaged).
 _sel = [h for h in _fg['harnesses'] if (not h.get('known') and _st.get(h['fn'], {}).get('accepted_runs', 0) > 0) or (h.get('known') == 'D15' and h['fn'] in ('h_f64_vpdpbssd_xmm_xmm_xmm_kf_D15', 'h_f64_vmpsadbw_xmm_xmm_xmm_imm_kf_D15'))]
-_NQ = max(1, len(_sel) // 10); _NT = max(1, len(_sel) // 160)
+_NQ = max(1, len(_sel) // 40); _NT = max(1, len(_sel) // 1000)
 HARNESSES = []
 for _i, _h in enumerate(_sel):
     HARNESSES.append(Harness('forms13', _h['fn'], unwind=17, tiers=('quick', 'thorough'), mem_gb=6, timeout=900, validate_runs=200,
